@@ -102,18 +102,22 @@ theorem GN.bind_weak {α β} {n : Nat} {x : P α} {f : α → P β} (hx : G fals
 
 /-! ### primitives -/
 
-theorem G.headIs (t : Tok) : G false (headIs t) := by intro s; simp [Parser.headIs, okRes]
+theorem Left.cons (t : Tok) (ts : List Tok) : Left true ts (t :: ts) :=
+  ⟨List.suffix_cons t ts, by simp⟩
+
+theorem G.headIs (t : Tok) : G false (headIs t) := by
+  intro s; simp [Parser.headIs, okRes, Left.refl]
 theorem G.peekOk : G false peekOk := by
   intro s; obtain ⟨ts, a, b⟩ := s
   cases ts with
-  | nil => simp [Parser.peekOk, okRes]
-  | cons t ts => cases t <;> simp [Parser.peekOk, okRes]
-theorem G.loopFuel : G false loopFuel := by intro s; simp [Parser.loopFuel, okRes]
+  | nil => simp [Parser.peekOk, okRes, Left.refl]
+  | cons t ts => cases t <;> simp [Parser.peekOk, okRes, Left.refl]
+theorem G.loopFuel : G false loopFuel := by intro s; simp [Parser.loopFuel, okRes, Left.refl]
 theorem G.nextOrError : G true nextOrError := by
   intro s; obtain ⟨ts, a, b⟩ := s
   cases ts with
   | nil => simp [Parser.nextOrError, okRes]
-  | cons t ts => cases t <;> simp [Parser.nextOrError, okRes]
+  | cons t ts => cases t <;> simp [Parser.nextOrError, okRes, Left.cons]
 theorem G.expect (t : Tok) : G true (expect t) := by
   unfold Parser.expect
   exact G.bind_tf G.nextOrError (fun x => G.ite (G.pure _) (G.err _))
@@ -127,8 +131,7 @@ theorem G.expectIdent : G true expectIdent := by
 /-- a step that only touches the counters -/
 theorem G.counters {α} (f : PState → α) (g : PState → PState) (hg : ∀ s, (g s).toks = s.toks) :
     G false (fun s => Res.ok (f s) (g s) : P α) := by
-  intro s; simp [okRes, hg]
-
+  intro s; simp only [okRes]; rw [hg]; exact Left.refl _
 
 theorem G.withFuel {α} {f : Nat → P α} (h : ∀ n, GN n (f n)) :
     G false (Parser.loopFuel >>= f) := by
@@ -137,19 +140,8 @@ theorem G.withFuel {α} {f : Nat → P α} (h : ∀ n, GN n (f n)) :
   exact h _ s (by omega)
 
 theorem GN.bind_gn_g {α β} {n : Nat} {x : P α} {f : α → P β} (hx : GN n x)
-    (hf : ∀ a, G false (f a)) : GN n (x >>= f) := by
-  intro s hs
-  have h1 := hx s hs
-  simp only [bind_def, P.bind_apply]
-  cases hr : x s with
-  | ok a s' =>
-    rw [hr] at h1
-    simp only [okRes, Bool.false_eq_true, if_false] at h1
-    have h2 := hf a s'
-    cases hr2 : f a s' <;> simp_all [okRes]; omega
-  | err => simp [okRes]
-  | panic m => rw [hr] at h1; simp [okRes] at h1
-  | fuel => rw [hr] at h1; simp [okRes] at h1
+    (hf : ∀ a, G false (f a)) : GN n (x >>= f) := fun s hs =>
+  okRes_bind (b1 := false) (b2 := false) (by simp) (hx s hs) (fun a s' _ => hf a s')
 
 /-! ### automation -/
 
@@ -311,7 +303,7 @@ theorem G.parseSubscript (C : Cfg) (e : Expr) : G true (parseSubscript C rec e) 
     | fuel => rw [hAs] at hA; simp [okRes] at hA
     | ok start s1 =>
       rw [hAs] at hA
-      simp only [okRes, Bool.false_eq_true, if_false] at hA
+      simp only [okRes] at hA
       have hB := G.subscriptSlice Hrec s1
       cases hBs : Parser.subscriptSlice rec s1 with
       | err => simp [okRes, hBs]
@@ -321,7 +313,7 @@ theorem G.parseSubscript (C : Cfg) (e : Expr) : G true (parseSubscript C rec e) 
         obtain ⟨sl, st, sp⟩ := r
         simp only [hBs]
         rw [hBs] at hB
-        simp only [okRes, Bool.false_eq_true, if_false] at hB
+        simp only [okRes] at hB
         have hC := G.expect Tok.rightBracket s2
         cases hCs : Parser.expect Tok.rightBracket s2 with
         | err => simp [okRes, hCs]
@@ -330,12 +322,14 @@ theorem G.parseSubscript (C : Cfg) (e : Expr) : G true (parseSubscript C rec e) 
         | ok u s3 =>
           simp only [hCs]
           rw [hCs] at hC
-          simp only [okRes, if_true] at hC
+          simp only [okRes] at hC
+          have hfin : Left false s3.toks s.toks :=
+            Left.trans (b3 := false) (by simp) (Left.trans (b3 := false) (by simp) hA hB) hC
           cases sl with
-          | true => simp [okRes, P.bind_apply]; omega
+          | true => simpa [okRes, P.bind_apply] using hfin
           | false =>
             cases start with
-            | some x => simp [okRes, P.bind_apply]; omega
+            | some x => simpa [okRes, P.bind_apply] using hfin
             | none =>
               obtain ⟨h1, hcol⟩ := subscriptStart_none s s1 hAs
               rw [h1] at hBs
